@@ -67,6 +67,8 @@ def check(ctx):
         fr[0] = rnd.choice([0x80, 0x40, 0xb4, 0xd0, 0x0c, 0x48, 0xc8])
         lines.append("eap 0 " + bytes(fr).hex())
     fw.run_suite(ctx, exe, "S-eap/recognition", lines, "EAPOL")
+    import frames as _fr
+    fw.run_suite(ctx, exe, "S-eap/size-ladder", [l for l in _fr.size_ladder(rnd, ctx.tier) if l.startswith("eap ")], "EAPOL extraction from long frames")
     ci = fw.corpus_inputs(ctx, random.Random(ctx.seed + 77))
     fw.run_suite(ctx, exe, "S-eap/corpus", ["eap %d %s" % (rt, b.hex() or "-") for rt, b in ci], "EAPOL (coverage-guided corpus + mutants)")
     fw.conclude(ctx, broken)
